@@ -28,7 +28,7 @@ Theorem roundtrip_pipeline_gen :
                  = map (fun lr => Msg (fst lr) (snd lr)) (combine (save_lines a st) rds)) ->
     (exists s, sort_lines a (save_lines a st) = Some s /\ Permutation s (save_lines a st) /\
                respects (line_must_precede a) s /\
-               real_apply dispatch a s (initial a) = apply_all a s (initial a)) ->
+               forall fin, apply_all a s (initial a) = (fin, true) -> real_apply dispatch a s (initial a) = (fin, true)) ->
     full_conditions a st ->
     exists fin,
       real_load text scan_text dispatch sort_lines a
@@ -48,7 +48,7 @@ Proof.
   { apply respects_map in Hresp. eapply respects_ext; [|exact Hresp].
     intros x y Hxy. exists x, y. unfold the_line. simpl. auto. }
   destruct (roundtrip_abstract_full a st ord Hfull (Permutation_sym Hpo) Hrb) as (fin & Hfin & Hcount & Hrest).
-  rewrite Hdisp, Hfin. exists fin. split; [reflexivity | assumption].
+  rewrite (Hdisp fin Hfin). exists fin. split; [reflexivity | assumption].
 Qed.
 
 Section Real.
@@ -86,6 +86,7 @@ Theorem roundtrip_tree_real :
   forall hp tid t apropos fuel F st ps,
     let a := app_of_tree t in
     names_ok (sports_of t) = true -> tree_ok (to_tree hp tid (sports_of t)) -> Forall pt_wf t ->
+    switches_ok t = true ->
     NoDup (map dir_addr (dirs_root t)) -> NoDup (app_addresses a) ->
     full_conditions a st -> comparable a st -> cstrings st ->
     declared a apropos ->
@@ -100,17 +101,18 @@ Theorem roundtrip_tree_real :
       forall q, (q < length a)%nat -> p_nodef (port_at a q) = false -> live a st q = true ->
                 restored_val (port_at a q) (val_at st q) (val_at fin q).
 Proof.
-  intros hp tid t apropos fuel F st ps a Hnames Htree Hwf Hdirs Haddr Hfull Hcmp Hstr Hdecl Hp Hr Hlines.
+  intros hp tid t apropos fuel F st ps a Hnames Htree Hwf Hsw Hdirs Haddr Hfull Hcmp Hstr Hdecl Hp Hr Hlines.
   unfold a in *. clear a.
   pose proof Hfull as (WF & _).
   apply roundtrip_pipeline_gen; try assumption.
-  - apply walk_stage; try assumption. intros i Hi. apply (w_shape _ WF i Hi).
+  - apply walk_stage; try assumption; [exact (w_paths _ WF)|]. intros i Hi. apply (w_shape _ WF i Hi).
   - intros i Hi. destruct (Hcmp i Hi) as [Hu Hw]. apply (eq_stage F _ _ Hu Hw).
   - destruct (print_scan_lines _ Hlines) as (rds & Hl & _ & Hs). exists rds. split; assumption.
   - destruct (sort_stage (app_of_tree t) st apropos fuel WF Hdecl ps Hp Hr) as (s & Hs & Hperm & Hresp).
     exists s. split; [exact Hs|]. split; [exact Hperm|]. split; [exact Hresp|].
+    intros fin Hfin.
     rewrite (dispatch_stage hp tid t st Hnames Htree Hwf Hfull Hcmp Hstr s).
-    + apply real_apply_is_apply_all. intros; reflexivity.
+    + apply real_apply_is_apply_all; [intros; reflexivity | exact Hfin].
     + intros l Hl. eapply Permutation_in; eassumption.
 Qed.
 
@@ -125,12 +127,50 @@ Proof.
   intros a st Hon H. apply Forall_forall. intros l Hl. destruct (H l Hl) as [[Hg (t & w & Hp)]|Hr]; [|exact Hr].
   exact (goodc_line_reads dec2f dec2d o l t w Hon Hg Hp).
 Qed.
+
+(* ---- stage 6: the per-line premise for the lines of EVERY parameter kind ------------------------
+   good_line (Save/PrintLines.v): a scalar port's line carries one value - a 32-bit int, a char, a
+   finite float (both zeroes), a boolean, a string or quoted symbol without NUL, a bare symbol; a
+   "name#N" port's line carries one array of such elements of one type (C10's list-level conditions:
+   no '.' in quoted text, +0.0 and -0.0 not both).  Excluded: NaN and the infinities (their text is
+   not read back: nan / inf are not float literals of the scanner), arrays mixing types (an option
+   array holding a number without symbol).  Savefiles are printed with the default options, which
+   are lossless. *)
+Theorem good_lines_read : forall ls,
+  lossless o = true -> Forall good_line ls -> Forall (line_reads dec2f dec2d o) ls.
+Proof.
+  intros ls Hl H. eapply Forall_impl; [|exact H]. intros l Hg.
+  exact (good_line_reads_total dec2f dec2d o l Hl Hg).
+Qed.
+
+Theorem roundtrip_tree_real_lines :
+  forall hp tid t apropos fuel F st ps,
+    let a := app_of_tree t in
+    names_ok (sports_of t) = true -> tree_ok (to_tree hp tid (sports_of t)) -> Forall pt_wf t ->
+    switches_ok t = true ->
+    NoDup (map dir_addr (dirs_root t)) -> NoDup (app_addresses a) ->
+    full_conditions a st -> comparable a st -> cstrings st ->
+    declared a apropos ->
+    pushes line apropos fuel (msgs (save_lines a st)) = Some ps -> ranked ps ->
+    lossless o = true -> Forall good_line (save_lines a st) ->
+    exists fin,
+      real_load (option (list Z)) scan_text_real (fun _ l s => tree_apply_line hp tid t l s)
+                (fun _ ls => sort_by_load_order apropos fuel ls) a
+                (real_save (option (list Z)) (fun _ s => walk_tree t s) (av_eq_real F) (print_body o) a st)
+                (initial a)
+      = Some (Z.of_nat (length (save_lines a st)), fin) /\
+      forall q, (q < length a)%nat -> p_nodef (port_at a q) = false -> live a st q = true ->
+                restored_val (port_at a q) (val_at st q) (val_at fin q).
+Proof.
+  intros hp tid t apropos fuel F st ps a Hnames Htree Hwf Hsw Hdirs Haddr Hfull Hcmp Hstr Hdecl Hp Hr Hl Hlines.
+  apply (roundtrip_tree_real hp tid t apropos fuel F st ps); try assumption.
+  apply good_lines_read; assumption.
+Qed.
 End Real.
 
 (* ---- non-vacuity: the tree of TreeStage.v, switch on and /s/x = 9 (the array at its default):
    the saved body is "/e true\n/s/x 9\n", both lines inside the fragment ----------------------- *)
-Definition opts_default : popts := {| lossless := true; prec := 2; linelength := 80; compress := true |}.
-Definition fx_state2 : state := [[SaveModel.VT true]; [SaveModel.VI 9]; [SaveModel.VI 1; SaveModel.VI 1; SaveModel.VI 1]].
+Definition fx_state2 : state := [[SaveModel.VT true]; [SaveModel.VI 9]; [SaveModel.VI 1; SaveModel.VI 1; SaveModel.VI 1]; [SaveModel.VI 8]].
 
 Lemma fx_full2 : full_conditions fx_tapp fx_state2.
 Proof.
@@ -157,7 +197,7 @@ Proof.
   split.
   { intros i Hi. three i; split; unfold value_comparable; repeat constructor. }
   split.
-  { intros i x Hx. destruct i as [|[|[|i]]]; simpl in Hx;
+  { intros i x Hx. destruct i as [|[|[|[|i]]]]; simpl in Hx;
       repeat (destruct Hx as [Hx|Hx]; [subst x; exact I|]); try contradiction.
     unfold val_at in Hx. destruct i; simpl in Hx; contradiction. }
   split; [apply DeclProofs.declared_b_sound; vm_compute; reflexivity|].
@@ -173,4 +213,68 @@ Proof.
     unfold goodc_line; cbn [l_array l_path l_vals map av_of length];
     (split; [reflexivity|]); (split; [split; [eexists; reflexivity | repeat constructor]|]);
     (split; [repeat constructor; cbn; unfold small_k; cbn; lia | cbn; lia]).
+Qed.
+
+(* ---- stage 6 non-vacuity: the same tree with the array changed: /t holds [1 5 1], its line is the
+   array line "/t [1 5]" (the suffix equal to the default is trimmed); and lines of the other kinds:
+   a float, a bare option symbol, a float array with a constant run ------------------------------- *)
+Theorem roundtrip_tree_real_lines_nonvacuous : forall dec2f dec2d,
+  let a := app_of_tree fx_tree in
+  full_conditions a fx_state /\
+  print_body opts_default (save_lines a fx_state)
+    = Some [47; 101; 32; 116; 114; 117; 101; 10;  47; 115; 47; 120; 32; 57; 10;
+            47; 116; 32; 91; 49; 32; 53; 93; 10]%Z /\
+  Forall good_line (save_lines a fx_state) /\
+  Forall (line_reads dec2f dec2d opts_default) (save_lines a fx_state).
+Proof.
+  intros dec2f dec2d a. unfold a. rewrite fx_tapp_eq.
+  split; [exact fx_full|]. split; [vm_compute; reflexivity|].
+  assert (H : Forall good_line (save_lines fx_tapp fx_state)).
+  { change (save_lines fx_tapp fx_state)
+      with [ {| l_path := [47; 101]%Z; l_array := false; l_vals := [SaveModel.VT true] |};
+             {| l_path := [47; 115; 47; 120]%Z; l_array := false; l_vals := [SaveModel.VI 9] |};
+             {| l_path := [47; 116]%Z; l_array := true; l_vals := [SaveModel.VI 1; SaveModel.VI 5] |} ].
+    repeat constructor; unfold good_line; cbn [l_array l_path l_vals];
+      try (eexists; reflexivity); try (intros; discriminate); try (eexists; split; [reflexivity|]; cbn; lia);
+      try discriminate; try (cbn; lia).
+    - cbn. intuition discriminate.
+    - cbn. intuition discriminate.
+    - intros x y [<-|[<-|[]]] [<-|[<-|[]]]; reflexivity. }
+  split; [exact H|]. apply good_lines_read; [reflexivity | exact H].
+Qed.
+
+Definition ex_float_line : line :=   (* /f 0.10 (0x1.99999ap-4) *)
+  {| l_path := [47; 102]%Z; l_array := false; l_vals := [SaveModel.VF 1036831949] |}.
+Definition ex_symbol_line : line :=  (* /o sine *)
+  {| l_path := [47; 111]%Z; l_array := false; l_vals := [SaveModel.VSym [115; 105; 110; 101]%Z] |}.
+Definition ex_dotted_line : line :=  (* /s "a...b" : dots are no obstacle on a one-value line *)
+  {| l_path := [47; 115]%Z; l_array := false; l_vals := [SaveModel.VS [97; 46; 46; 46; 98]%Z] |}.
+Definition ex_farray_line : line :=  (* /a [0.50 (0x1p-1) 5x-0.00 (-0x0p+0)] *)
+  {| l_path := [47; 97]%Z; l_array := true;
+     l_vals := SaveModel.VF 1056964608 :: repeat (SaveModel.VF 2147483648) 5 |}.
+
+Theorem good_line_examples : forall dec2f dec2d,
+  Forall good_line [ex_float_line; ex_symbol_line; ex_dotted_line; ex_farray_line] /\
+  Forall (line_reads dec2f dec2d opts_default) [ex_float_line; ex_symbol_line; ex_dotted_line; ex_farray_line] /\
+  print_body opts_default [ex_float_line; ex_symbol_line; ex_dotted_line; ex_farray_line] =
+  Some ([47; 102; 32; 48; 46; 49; 48; 32; 40; 48; 120; 49; 46; 57; 57; 57; 57; 57; 97; 112; 45; 52; 41; 10] ++
+        [47; 111; 32; 115; 105; 110; 101; 10] ++
+        [47; 115; 32; 34; 97; 46; 46; 46; 98; 34; 10] ++
+        [47; 97; 32; 91; 48; 46; 53; 48; 32; 40; 48; 120; 49; 112; 45; 49; 41; 32; 53; 120; 45; 48; 46; 48; 48; 32;
+         40; 45; 48; 120; 48; 112; 43; 48; 41; 93; 10])%Z.
+Proof.
+  intros dec2f dec2d.
+  assert (H : Forall good_line [ex_float_line; ex_symbol_line; ex_dotted_line; ex_farray_line]).
+  { repeat constructor; unfold good_line; cbn [l_array l_path l_vals ex_float_line ex_symbol_line ex_dotted_line ex_farray_line];
+      try (eexists; reflexivity); try (intros; discriminate); try discriminate.
+    - eexists; split; [reflexivity|]. cbn. split; [lia | reflexivity].
+    - eexists; split; [reflexivity|]. cbn. left. reflexivity.
+    - eexists; split; [reflexivity|]. cbn. repeat constructor; lia.
+    - cbn. intros H. repeat (destruct H as [H|H]; [inversion H|]). exact H.
+    - cbn. intros H. repeat (destruct H as [H|H]; [inversion H|]). exact H.
+    - intros x y Hx Hy. cbn in Hx, Hy.
+      repeat (destruct Hx as [<-|Hx]; [|]); try contradiction;
+      repeat (destruct Hy as [<-|Hy]; [|]); try contradiction; reflexivity. }
+  split; [exact H|]. split; [apply good_lines_read; [reflexivity | exact H]|].
+  vm_compute. reflexivity.
 Qed.
